@@ -23,7 +23,7 @@ SHRINK_LISTS = [('outcomes',)]
 EXPECTED_PROBES = ['reset_after_ready', 'limit_capped_by_max_wait',
                    'limit_reached_with_draw_near_1', 'draw_zero',
                    'exit_at_first_backoff', 'zero_wait_config',
-                   'long_failure_run']
+                   'long_failure_run', 'close_while_connecting']
 
 OUTCOMES = ['gaierror', 'refused', 'request_fail', 'rejected',
             'drop_before_ready', 'drop_after_ready', 'graceful',
@@ -60,7 +60,11 @@ def make_case(family, i, rng, tier):
             'ping_timeout': rng.choice([None, 4, 9]),
             'draws': draws,
             'stop_at': rng.choice([None, None, 0, 1, rng.randrange(0, n)]),
-            'app_sends': rng.random() < 0.4}
+            'app_sends': rng.random() < 0.4,
+            # close() from the Connecting handler of one attempt: that attempt
+            # fails, persist() must carry on
+            'close_on_connecting': rng.choice([None, None, None,
+                                               rng.randrange(0, n)])}
 
 
 def _conn(outcome, k, case):
@@ -108,6 +112,10 @@ def build(case):
             {'op': 'send_text', 'text': u'reply'}]},
             {'when': {'name': 'back_off'}, 'do': [
                 {'op': 'send_text', 'text': u'while down'}]}]
+    if case.get('close_on_connecting') is not None:
+        app.append({'when': {'name': 'connecting',
+                             'attempt': case['close_on_connecting']},
+                    'do': [{'op': 'close'}]})
     return {'url': 'ws://example.test/feed',
             'persist': {'poll': case['poll'], 'min_wait': case['min_wait'],
                         'max_wait': case['max_wait'],
@@ -224,6 +232,8 @@ def execute(case):
                             tr.backoff_waits[j][2], d))
         else:
             res.bad('C16/no_wait_after_backoff', 'BackOff #%d' % j)
+    if case.get('close_on_connecting') is not None:
+        res.stats['probe:close_while_connecting'] += 1
     if stop_at == 0:
         res.stats['probe:exit_at_first_backoff'] += 1
     if mx == 0:
